@@ -722,6 +722,28 @@ func genProto() (string, error) {
 			})
 		}
 	}
+	// capacity of the channels on which a requester waits for a MessageResult (minimum over all sites)
+	chanCap, chanSites := -1, 0
+	ast.Inspect(cf, func(n ast.Node) bool {
+		c, ok := n.(*ast.CallExpr)
+		if !ok || pstr(c.Fun) != "make" || len(c.Args) == 0 || pstr(c.Args[0]) != "chan MessageResult" {
+			return true
+		}
+		cp := 0
+		if len(c.Args) > 1 {
+			if v, ok := env.eval(c.Args[1]); ok {
+				cp = int(v)
+			}
+		}
+		if chanCap < 0 || cp < chanCap {
+			chanCap = cp
+		}
+		chanSites++
+		return true
+	})
+	if chanSites == 0 {
+		return "", fmt.Errorf("no `make(chan MessageResult…)` found")
+	}
 	if recvSwitch == nil {
 		return "", fmt.Errorf("switch buf.B[7] not found in handleRecvQueue")
 	}
@@ -776,6 +798,7 @@ func genProto() (string, error) {
 	fmt.Fprintf(&sb, "/-- handleRecvQueue, case protoMessageZ: `skipBytes` -/\ndef zSkipBytes : Nat := %d\n", zSkip)
 	fmt.Fprintf(&sb, "/-- send(): the compression condition is literally `compression.Enable && buf.Len() > compression.Threshold` -/\ndef zStrictThreshold : Bool := %v\n", zCmp)
 	fmt.Fprintf(&sb, "/-- send(): `c.peer_maxmessagesize > 0 && buf.Len() > c.peer_maxmessagesize` returns an error before anything is written -/\ndef sendChecksMax : Bool := %v\n\n", sendMax)
+	fmt.Fprintf(&sb, "/-- smallest capacity of a `make(chan MessageResult…)` a requester waits on (%d sites); the reply is handed over with a non-blocking send -/\ndef requestChanCap : Nat := %d\n\n", chanSites, chanCap)
 	sb.WriteString(protoStructs)
 	sb.WriteString("def kinds : List Kind := [\n")
 	for i, t := range order {
@@ -879,6 +902,7 @@ def zTypeByte : Nat := 0
 def zSkipBytes : Nat := 0
 def zStrictThreshold : Bool := false
 def sendChecksMax : Bool := false
+def requestChanCap : Nat := 0
 ` + protoStructs + `def kinds : List Kind := []
 end ErgoVerif.Generated.Proto
 `
